@@ -380,6 +380,20 @@ MUTANTS = [
     m("C01-silent-blocks-from-the-right-with-transposes", "C01", "", OPS, "            elems = M @ v[i:i_end].T.reshape(k * multiplicity, M.shape[-1]).T", "            elems = (v[i:i_end].T.reshape(k * multiplicity, M.shape[-1]) @ M.T).T", silent=True),
     m("C12-zero-threshold-in-the-normal-range", "C12", "zero-threshold@", CG, "_small_value = 1e-40", "_small_value = 1e-30"),
     m("C12-silent-zero-threshold-still-denormal", "C12", "", CG, "_small_value = 1e-40", "_small_value = 1e-39", silent=True),
+    # ---------------------------------------------------------------- round 8
+    m("C12-explicit-zero-cap-becomes-default", "C12", "loop-cap@cg:max_iters-or-default", CG, "    soln, *_, infodict = run_cg(A, rhs, x0, max_iters, tol, P, pbar=pbar)",
+      "    max_iters = max_iters or 1000\n    soln, *_, infodict = run_cg(A, rhs, x0, max_iters, tol, P, pbar=pbar)"),
+    m("C12-silent-none-cap-becomes-default", "C12", "", CG, "    soln, *_, infodict = run_cg(A, rhs, x0, max_iters, tol, P, pbar=pbar)",
+      "    max_iters = max_iters if max_iters is not None else 5000\n    soln, *_, infodict = run_cg(A, rhs, x0, max_iters, tol, P, pbar=pbar)", silent=True),
+    m("C14-abs-on-the-diagonal-of-T", "C14", "symmetric-T@lanczos:diagonal", LAN, "        alpha, beta = alpha[0], beta[0]\n        T = Tridiagonal(alpha, beta, alpha)",
+      "        alpha, beta = alpha[0], xnp.abs(beta[0])\n        T = Tridiagonal(alpha, beta, alpha)"),
+    m("C14-silent-real-part-of-the-diagonal-of-T", "C14", "", LAN, "        alpha, beta = alpha[0], beta[0]\n        T = Tridiagonal(alpha, beta, alpha)",
+      "        alpha, beta = alpha[0], xnp.cast(beta[0].real, A.dtype)\n        T = Tridiagonal(alpha, beta, alpha)", silent=True),
+    m("C14-silent-abs-on-the-off-diagonal-of-T", "C14", "", LAN, "        alpha, beta = alpha[0], beta[0]\n        T = Tridiagonal(alpha, beta, alpha)",
+      "        alpha, beta = xnp.abs(alpha[0]), beta[0]\n        T = Tridiagonal(alpha, beta, alpha)", silent=True),
+    m("C17-generator-seeded-by-a-key-that-may-be-none", "C17", "rng-local-seed@lobpcg", LOB, "    rng = np.random.default_rng(42 if key is None else np.asarray(key))", "    rng = np.random.default_rng(key)"),
+    m("C20-sliced-dense-form-pairs-the-index-arrays", "C20", "outer-selection@Sliced", OPS, "    def __str__(self):\n        has_length = hasattr(self.slices[0], '__len__')",
+      "    def _entries(self, table):\n        return table[self.slices]\n\n    def __str__(self):\n        has_length = hasattr(self.slices[0], '__len__')"),
 ]
 
 
